@@ -21,6 +21,10 @@ func main() {
 		os.Exit(cmdCheck(os.Args[2:]))
 	case "loops":
 		os.Exit(cmdLoops(os.Args[2:]))
+	case "evalgoto":
+		os.Exit(cmdEvalGoto(os.Args[2:]))
+	case "evalcolor":
+		os.Exit(cmdEvalColor(os.Args[2:]))
 	case "dump":
 		os.Exit(cmdDump(os.Args[2:]))
 	case "replay":
